@@ -56,7 +56,7 @@ def run_inproc(files, flags, *, format_command=None, block_black=False, pyprojec
     flags = {f for f in flags if f}
     base = Path(workdir or tempfile.mkdtemp(prefix=f"ip{next(_counter)}-", dir=os.environ.get("VERIF_TMP") or "/var/tmp"))
     base.mkdir(parents=True, exist_ok=True)
-    res = {"tests": [], "module_exc": [], "R": {}, "session_exc": None, "reported": [], "snapshots": [],
+    res = {"tests": [], "module_exc": [], "R": {}, "session_exc": None, "reported": [], "snapshots": [], "obsolete": None,
            "replacements": {}, "new_code": {}, "raw_new_code": {}, "read_text": {}, "files": {}, "warnings": [], "problems": [], "dir": str(base)}
     old_config = _config.config
     _config.config = _config.Config()
@@ -141,6 +141,26 @@ def run_inproc(files, flags, *, format_command=None, block_black=False, pyprojec
                     })
                     changes += cs
                 res["reported"] = sorted({c.flag for c in changes})
+                # what without_obsolete_changes is given and what it keeps (correspondence with Model/Obsolete.v)
+                try:
+                    from inline_snapshot._change import Delete as _Delete, Replace as _Replace, without_obsolete_changes as _woc
+                    approved = [c for c in changes if c.flag in flags]
+                    ids = {}
+
+                    def _nid(n):
+                        return ids.setdefault(id(n), len(ids))
+                    desc = []
+                    for c in approved:
+                        node = getattr(c, "node", None)
+                        chain = []
+                        while node is not None:
+                            chain.append(_nid(node))
+                            node = getattr(node, "parent", None)
+                        desc.append((isinstance(c, (_Delete, _Replace)) and getattr(c, "node", None) is not None, chain))
+                    kept = _woc(list(approved))
+                    res["obsolete"] = {"changes": desc, "kept": [i for i, c in enumerate(approved) if any(c is k for k in kept)]}
+                except Exception as e:  # noqa
+                    res["obsolete"] = {"error": f"{type(e).__name__}: {e}"}
                 rec = ChangeRecorder()
                 apply_all([c for c in changes if c.flag in flags], rec)
                 for f in rec.files():
